@@ -37,6 +37,12 @@ type Solver struct {
 	timeout int // ms
 	log     *os.File
 	dead    bool
+	// live mirrors the solver's assertion stack (declarations, definitions, assertions) so that
+	// a query the incremental core cannot decide in time can be retried by a fresh one-shot
+	// process with full preprocessing; marks are the push points.
+	live     []string
+	marks    []int
+	oneShots int
 }
 
 func solverArgv(name string, timeoutMs int) []string {
@@ -52,7 +58,7 @@ func solverArgv(name string, timeoutMs int) []string {
 }
 
 func NewSolver(name string, timeoutMs int, logPath string) (*Solver, error) {
-	argv := solverArgv(name, timeoutMs)
+	argv := solverArgv(name, min(timeoutMs, incrementalTimeoutMs))
 	cmd := exec.Command(argv[0], argv[1:]...)
 	in, err := cmd.StdinPipe()
 	if err != nil {
@@ -88,6 +94,18 @@ func (s *Solver) resetScope() {
 func (s *Solver) send(line string) {
 	if s.log != nil {
 		fmt.Fprintln(s.log, line)
+	}
+	switch {
+	case strings.HasPrefix(line, "(push"):
+		s.marks = append(s.marks, len(s.live))
+	case strings.HasPrefix(line, "(pop"):
+		if n := len(s.marks); n > 0 {
+			s.live = s.live[:s.marks[n-1]]
+			s.marks = s.marks[:n-1]
+		}
+	case strings.HasPrefix(line, "(check-sat"), strings.HasPrefix(line, "(get-"), strings.HasPrefix(line, "(exit"):
+	default:
+		s.live = append(s.live, line)
 	}
 	if _, err := s.bw.WriteString(line); err != nil {
 		s.dead = true
@@ -279,6 +297,10 @@ func (s *Solver) Check(tb *TB, extra *Term) (SatResult, string) {
 			s.time += time.Since(start)
 			return Unsat, ""
 		case "unknown", "timeout":
+			if fr, ok := s.oneShot(extra); ok {
+				s.time += time.Since(start)
+				return fr, ""
+			}
 			s.time += time.Since(start)
 			return Unknown, r
 		}
@@ -465,4 +487,50 @@ func sexpValue(e *sexp) (*big.Int, error) {
 		return v, nil
 	}
 	return nil, fmt.Errorf("unsupported value form")
+}
+
+// incrementalTimeoutMs bounds a query in the long-lived incremental process; a query that
+// exceeds it is retried once by a fresh process (oneShot) under the full timeout.
+const incrementalTimeoutMs = 15000
+
+// oneShot decides live-assertions + extra in a fresh non-incremental solver process.
+func (s *Solver) oneShot(extra *Term) (SatResult, bool) {
+	f, err := os.CreateTemp("", "gosym-oneshot-*.smt2")
+	if err != nil {
+		return Unknown, false
+	}
+	defer os.Remove(f.Name())
+	w := bufio.NewWriter(f)
+	for _, l := range s.live {
+		w.WriteString(l)
+		w.WriteByte('\n')
+	}
+	if extra != nil && !extra.IsTrue() {
+		w.WriteString("(assert " + ref(extra) + ")\n")
+	}
+	w.WriteString("(check-sat)\n")
+	w.Flush()
+	f.Close()
+	s.oneShots++
+	var argv []string
+	switch s.name {
+	case "cvc5":
+		argv = []string{"cvc5", "--lang=smt2", fmt.Sprintf("--tlimit=%d", s.timeout), f.Name()}
+	default:
+		argv = []string{s.name, fmt.Sprintf("-T:%d", max(1, s.timeout/1000)), f.Name()}
+	}
+	out, _ := exec.Command(argv[0], argv[1:]...).CombinedOutput()
+	txt := string(out)
+	if strings.Contains(txt, "(error") {
+		return Unknown, false
+	}
+	for _, l := range strings.Split(txt, "\n") {
+		switch strings.TrimSpace(l) {
+		case "sat":
+			return Sat, true
+		case "unsat":
+			return Unsat, true
+		}
+	}
+	return Unknown, false
 }
